@@ -130,6 +130,11 @@ func scriptFig8x(rn *Runner) {
 	}
 	c.Start(A)
 	c.Start(B)
+	withE := rn.rng.Intn(2) == 0
+	if withE {
+		// variant: E is back already and is sent the old-term entries over its higher-term no-op
+		c.Start(E)
+	}
 	L := rn.waitLeader(map[*Node]bool{A: true, B: true}, 40)
 	if L == nil {
 		rn.note("neither A nor B won")
@@ -142,6 +147,9 @@ func scriptFig8x(rn *Runner) {
 	c.Crash(B)
 	for nd := range rest {
 		nd.disk.Disarm()
+	}
+	if withE {
+		c.Crash(E)
 	}
 	c.Start(E)
 	if w := rn.waitLeader(rest, 40); w != nil {
